@@ -11,6 +11,11 @@ int
 crypto_kdf_hkdf_sha256_extract_init(crypto_kdf_hkdf_sha256_state *state,
                                     const unsigned char *salt, size_t salt_len)
 {
+    static const unsigned char no_salt[1] = { 0U };
+
+    if (salt == NULL && salt_len == (size_t) 0U) {
+        salt = no_salt;
+    }
     return crypto_auth_hmacsha256_init(&state->st, salt, salt_len);
 }
 
